@@ -23,11 +23,11 @@ type Session struct {
 	Version byte
 	Subs    map[string]*SubState
 	// Expiry bookkeeping (C15)
-	Clean      bool    // v3: clean session flag of the last connect
-	ExpirySet  bool    // v5: a session expiry interval is in effect
-	Expiry     uint32  // v5: effective interval as requested (not yet capped)
-	DiscStep   int     // step at which the last connection ended (-1 while connected)
-	DiscAt     int64   // wall-clock second of that step
+	Clean       bool   // v3: clean session flag of the last connect
+	ExpirySet   bool   // v5: a session expiry interval is in effect
+	Expiry      uint32 // v5: effective interval as requested (not yet capped)
+	DiscStep    int    // step at which the last connection ended (-1 while connected)
+	DiscAt      int64  // wall-clock second of that step
 	CreatedStep int
 }
 
